@@ -51,7 +51,7 @@ def take_snapshot(bld, tag, args, timeout=120):
                 r = subprocess.run([bld['exe'], 'snap', tmp] + [str(a) for a in args], capture_output=True, text=True, timeout=timeout)
                 if r.returncode != 0:
                     raise RuntimeError('harness snap failed (%s %s): rc=%d %s %s' % (bld['exe'], args, r.returncode, r.stdout[-2000:], r.stderr[-2000:]))
-                for ext in ('.bin', '.out', '.meta'):
+                for ext in ('.calib', '.bin', '.out', '.meta'):
                     if os.path.exists(tmp + ext): os.replace(tmp + ext, prefix + ext)
     snap, roots = load_snapshot(prefix, bld['exe'])
     return snap, roots, prefix
@@ -283,7 +283,7 @@ def decode_arg(ex, a, ret):
     if k == 'd': return ex.dom.from_bits(int(v, 16), 64)
     raise ValueError(a)
 
-def validate(res, mod, snap, prefix, ext=None, only=None):
+def validate(res, mod, snap, prefix, ext=None, only=None, approx=None):
     """translator validation: execute the harness' validation script with the IR interpreter in the concrete IEEE domain on the
     snapshot and compare every expected blob bit for bit with what the native run produced."""
     steps, blob = parse_script(prefix)
@@ -304,6 +304,11 @@ def validate(res, mod, snap, prefix, ext=None, only=None):
             if how == 'ret' and name.endswith('_force'): pass
             got = ex.read_bytes(st, a, n)
             if got == blob[off:off + n]: ok += 1
+            elif approx and name in approx:
+                # results that pass through a library the interpreter cannot reproduce bit for bit (FFTW): compare as floats with a stated tolerance
+                g = np.frombuffer(got, dtype=np.float32).astype(np.float64); w = np.frombuffer(blob[off:off + n], dtype=np.float32).astype(np.float64)
+                if np.all(np.abs(g - w) <= approx[name] * max(1e-30, float(np.max(np.abs(w))))): ok += 1
+                else: bad.append(name + ' (beyond tolerance %g: max dev %g of %g)' % (approx[name], float(np.max(np.abs(g - w))), float(np.max(np.abs(w)))))
             else: bad.append(name)
     res.validated += ok; res.instrs += st.nins; res.paths += 1
     for k, v in ex.fcount.items():
